@@ -106,17 +106,46 @@ theorem silentOK_cut (tr : TimedTrace) (u : Option Time) (l : List Ev) (hd : tr.
 theorem silentOK_down (tr : TimedTrace) (u : Option Time) (l : List Ev) (hd : tr.dels = down u l)
     (hc : tr.cut = cutOf u) : SilentOK tr := silentOK_cut tr u (gateT l) hd hc
 
-theorem silentOK_cancel (tr : TimedTrace) (c0 c1 : Time) (hc : tr.cut = .cancel c0 c1) : SilentOK tr := by
-  unfold SilentOK; rw [hc]; trivial
+theorem lateCount_le_of_prefix {c : Time} {p l : List Ev} (h : p <+: l) : lateCount c p ≤ lateCount c l :=
+  (h.sublist.filter _).length_le
+
+theorem lateCount_append (c : Time) (a b : List Ev) : lateCount c (a ++ b) = lateCount c a + lateCount c b := by
+  simp [lateCount]
+
+theorem lateCount_le_length (c : Time) (l : List Ev) : lateCount c l ≤ l.length := List.length_filter_le _ _
+
+theorem lateCount_mapIdx (c : Time) : ∀ (l : List Time) (f : Nat → Time → Ev), (∀ k t, (f k t).t0 = t) →
+    lateCount c (l.mapIdx f) = (l.filter (fun t => decide (c < t))).length
+  | [], _, _ => by simp [lateCount]
+  | t :: l, f, hf => by
+    have ih := lateCount_mapIdx c l (fun i => f (i + 1)) (fun k t => hf (k + 1) t)
+    rw [List.mapIdx_cons]
+    simp only [lateCount, List.filter_cons, hf 0 t] at ih ⊢
+    split <;> simp [ih]
+
+/-- G2 after a cancellation: the count of deliveries that begin after it -/
+theorem silentOK_cancel (tr : TimedTrace) (c0 c1 : Time) (hc : tr.cut = .cancel c0 c1)
+    (hn : lateCount c1 tr.dels ≤ cancelSlack + 2) : SilentOK tr := by
+  unfold SilentOK; rw [hc]; simp only; omega
 
 theorem silentOK_none (tr : TimedTrace) (hc : tr.cut = .none) : SilentOK tr := by
   unfold SilentOK; rw [hc]; trivial
 
+/-- runs that end by cancellation or by teardown: `l` = the delivery attempts -/
 theorem silentOK_stopCut (tr : TimedTrace) (stop : Option (Time × Time)) (u : Option Time) (l : List Ev)
-    (hd : tr.dels = down u l) (hc : tr.cut = stopCut stop u) : SilentOK tr := by
+    (hd : tr.dels = down u l) (hc : tr.cut = stopCut stop u)
+    (hfair : ∀ c x, stop = some (c, x) → lateCount c l ≤ cancelSlack + 1) : SilentOK tr := by
   cases stop with
   | none => exact silentOK_down tr u l hd (by simpa [stopCut] using hc)
-  | some cx => exact silentOK_cancel tr cx.1 cx.1 (by simpa [stopCut] using hc)
+  | some cx =>
+    refine silentOK_cancel tr cx.1 cx.1 (by simpa [stopCut] using hc) ?_
+    have h1 := hfair cx.1 cx.2 rfl
+    have h2 : lateCount cx.1 tr.dels ≤ lateCount cx.1 l := by rw [hd]; exact lateCount_le_of_prefix (down_prefix u l)
+    omega
+
+theorem lateCount_stopAttempt (c : Time) (stop : Option (Time × Time)) : lateCount c (stopAttempt stop) ≤ 1 := by
+  have := lateCount_le_length c (stopAttempt stop)
+  cases stop <;> simp [stopAttempt] at this ⊢ <;> omega
 
 /-- the clause per delivery, through `[k]?` -/
 theorem opOK_of_getElem? (cfg : Cfg) (tr : TimedTrace)
